@@ -14,9 +14,11 @@ import (
 	"sort"
 	"strconv"
 	"strings"
+	"sync"
 
 	"github.com/piotrnar/gocoin/lib/btc"
 	"github.com/piotrnar/gocoin/lib/chain"
+	"github.com/piotrnar/gocoin/lib/others/vhook"
 	"github.com/piotrnar/gocoin/lib/utxo"
 	"verif/chainkit"
 	"verif/vlib"
@@ -39,6 +41,34 @@ type ChildRes struct {
 	Feed     []string `json:"feed"`     // result per fed block that was not "ok"/"already in"
 	Readable string   `json:"readable"` // "" or the first block of the active chain whose data cannot be read back
 	Reopen2  string   `json:"reopen2"`
+	// undo files of the last heights of the re-opened tip's chain, looked at right after NewChainExt (client mode):
+	// heights whose undo/<h> names ANOTHER block in its first 32 bytes / whose undo/<h> does not exist
+	UndoForeign []uint32 `json:"undo_foreign,omitempty"`
+	UndoMissing []uint32 `json:"undo_missing,omitempty"`
+	// stage2 mode: the captures taken while this process continued the workload (directory names under <dir>.s2/)
+	Second []SecondCap `json:"second,omitempty"`
+}
+
+type SecondCap struct {
+	Name  string `json:"name"`  // directory name
+	Point string `json:"point"` // vhook point (or "end" = after Idle, no Close)
+	Idx   int    `json:"hit"`
+}
+
+// undoLook reads the first 32 bytes of undo/<h> for the last `depth` blocks of the active chain.
+func undoLook(ch *chain.Chain, dir string, depth int) (foreign, missing []uint32) {
+	n := ch.LastBlock()
+	for i := 0; i < depth && n != nil && n.Parent != nil; i, n = i+1, n.Parent {
+		b, err := os.ReadFile(fmt.Sprint(dir, "undo/", n.Height))
+		if err != nil {
+			missing = append(missing, n.Height)
+			continue
+		}
+		if len(b) < 32 || hex.EncodeToString(b[:32]) != hex.EncodeToString(n.BlockHash.Hash[:]) {
+			foreign = append(foreign, n.Height)
+		}
+	}
+	return
 }
 
 func stateOf(ch *chain.Chain) *State {
@@ -136,7 +166,7 @@ func childMain(args []string) {
 		os.WriteFile(rf+".tmp", b, 0644)
 		os.Rename(rf+".tmp", rf)
 	}
-	opts := chainkit.Opts{Dir: dir, KeepDir: true, GenesisTime: uint32(gt), ChainOpts: &chain.NewChanOpts{DoNotRescan: mode == "client"}}
+	opts := chainkit.Opts{Dir: dir, KeepDir: true, GenesisTime: uint32(gt), ChainOpts: &chain.NewChanOpts{DoNotRescan: mode != "library"}}
 	var k *chainkit.Kit
 	open := func() (s string) {
 		defer func() {
@@ -157,9 +187,16 @@ func childMain(args []string) {
 		return
 	}
 	res.S1 = stateOf(k.Ch)
+	if mode != "library" {
+		res.UndoForeign, res.UndoMissing = undoLook(k.Ch, dir, 8)
+	}
 	write() // in case something below kills the process outright
+	if mode == "stage2" {
+		stage2(k, dir, bf, res, write)
+		return
+	}
 	res.Recovery = "none"
-	if mode == "client" {
+	if mode != "library" {
 		res.Recovery = clientRecover(k.Ch)
 	}
 	res.S2 = stateOf(k.Ch)
@@ -210,4 +247,64 @@ func childMain(args []string) {
 		}
 	}
 	write()
+}
+
+// stage2: this process is the FIRST restart after a crash. It recovers like the client, continues the workload (all its
+// blocks, no snapshot: UTXO_SKIP_SAVE_BLOCKS is huge), flushes the blocks with Idle and is then "killed" a second time:
+// the directory is captured at the chosen vhook points and once more after Idle; the process exits without Close.
+// C07_S2_ALL=1 (thorough): capture at every point; otherwise at blockdb.write:idx-written hits and at the end.
+func stage2(k *chainkit.Kit, dir, bf string, res *ChildRes, write func()) {
+	out := strings.TrimRight(dir, "/") + ".s2/"
+	os.MkdirAll(out, 0770)
+	res.Recovery = clientRecover(k.Ch)
+	res.S2 = stateOf(k.Ch)
+	write()
+	if strings.HasPrefix(res.Recovery, "panic") {
+		return
+	}
+	utxo.UTXO_SKIP_SAVE_BLOCKS = 1000000
+	all := os.Getenv("C07_S2_ALL") != ""
+	cnt := map[string]int{}
+	n := 0
+	var mu sync.Mutex
+	capture := func(name string) {
+		mu.Lock()
+		defer mu.Unlock()
+		cnt[name]++
+		if !all && name != "blockdb.write:idx-written" && name != "end" {
+			return
+		}
+		if n >= 60 {
+			return
+		}
+		n++
+		dn := fmt.Sprintf("%03d", n)
+		if copyTree(dir, out+dn+"/") == nil {
+			res.Second = append(res.Second, SecondCap{Name: dn, Point: name, Idx: cnt[name]})
+		}
+	}
+	vhook.Set(capture)
+	for i, raw := range readBlocksFile(bf) {
+		r := k.Submit(raw)
+		if !r.OK() {
+			s := r.String()
+			if strings.Contains(s, "already in") {
+				continue
+			}
+			res.Feed = append(res.Feed, fmt.Sprintf("%d: %s", i, s))
+		}
+	}
+	func() {
+		defer func() {
+			if x := recover(); x != nil {
+				res.Feed = append(res.Feed, "idle panic: "+fmt.Sprint(x))
+			}
+		}()
+		k.Ch.Idle()
+	}()
+	vhook.Set(nil)
+	capture("end")
+	res.S3 = stateOf(k.Ch)
+	write()
+	// no Close: the process dies here
 }
